@@ -4,6 +4,7 @@ go 1.14
 
 require (
 	github.com/golang/protobuf v1.4.3
+	github.com/gorilla/websocket v1.4.1
 	github.com/hashicorp/memberlist v0.2.2
 	github.com/vx-labs/commitlog v1.2.4
 	github.com/vx-labs/mqtt-protocol v5.1.1+incompatible
